@@ -485,6 +485,25 @@ impl Condition for NumericCondition {
                     unreachable!("IN operation should not be used with NumericCondition")
                 }
             }
+        } else if let Some(u) = accessor.get_field_as_u64(&self.field) {
+            // Unsigned payload values above i64::MAX: compare exactly as evaluate_at does for u64 columns
+            let rhs = if self.value < 0 {
+                return false;
+            } else {
+                self.value as u64
+            };
+            match self.operation {
+                CompareOp::Gt => u > rhs,
+                CompareOp::Gte => u >= rhs,
+                CompareOp::Lt => u < rhs,
+                CompareOp::Lte => u <= rhs,
+                CompareOp::Eq => u == rhs,
+                CompareOp::Neq => u != rhs,
+                CompareOp::In => {
+                    // IN operation should use InNumericCondition, not NumericCondition
+                    unreachable!("IN operation should not be used with NumericCondition")
+                }
+            }
         } else if let Some(f) = accessor.get_field_as_f64(&self.field) {
             // Float payload values: compare exactly as evaluate_at does for f64 columns
             let rhs = self.value as f64;
